@@ -269,6 +269,9 @@ def main_wrapper(prop, runner, argv=None):
         if a.replay:
             replay = json.load(open(a.replay))
         runner(chk, replay)
+        if tier == "thorough" and not replay:
+            from checks import liveness
+            liveness.run(chk)
         return chk.finish()
     except MachineryError as e:
         print("MACHINERY-ERROR: property=%s %s" % (prop, e))
